@@ -91,10 +91,22 @@ def spec_sims(spec):
     for b in blocks:
         dp = b['decoder'].get('parameters') or {}
         dps = dp if isinstance(dp, list) else [dp]
+        splitting = (b.get('method') or {}).get('name') == 'splitting'
+        rates = ['all'] if splitting else [repr(float(r)) for r in b['error_rate']]
         for c, e, d, r in itertools.product(b['code']['parameters'], b['error_model']['parameters'],
-                                            dps, b['error_rate']):
-            out.append(runner.canon([b['code']['name'], c, e, b['decoder']['name'], d, repr(float(r))]))
+                                            dps, rates):
+            out.append(runner.canon([b['code']['name'], c, e, b['decoder']['name'], d, r]))
     return out
+
+
+def result_lists(res):
+    """The per-trial lists of a simulation's results (direct: one entry per
+    trial in three lists; splitting: one chain per error rate)."""
+    if 'log_p_errors' in res:
+        return {f'log_p_errors[{i}]': [float(v) for v in x] for i, x in enumerate(res['log_p_errors'])}
+    return {'effective_error': [np.asarray(x).tolist() for x in res['effective_error']],
+            'success': [bool(x) for x in res['success']],
+            'codespace': [bool(x) for x in res['codespace']]}
 
 
 def norm(obj):
@@ -123,6 +135,7 @@ class Scenario:
                                 save_frequency=save_frequency)
         for i, sim in enumerate(batch._simulations):
             sim.rng = np.random.default_rng(seed * 1000 + i)
+        np.random.seed(seed % (2 ** 32))     # the splitting method draws from numpy's global state
         scen = self
         orig = batch._save_results
 
@@ -193,20 +206,17 @@ def check_final(scen, batch, target, fail, foreign_marks=(), model=None):
         res = sim.results
         key = inputs_key(sim._inputs)
         n = res['n_runs']
-        lens = (len(res['effective_error']), len(res['success']), len(res['codespace']))
+        mine_lists = norm(result_lists(res))
+        lens = tuple(len(v) for v in mine_lists.values())
         if n != target:
             fail('exact_target', f'simulation {si}: n_runs={n}, requested {target}')
-        if lens != (n, n, n):
+        if any(x != n for x in lens):
             fail('equal_list_lengths', f'simulation {si}: n_runs={n}, list lengths {lens}')
         m = (scen.model if model is None else model).get(key)
         if m is not None:
-            mr = m['results']
-            k = len(mr['success'])
-            got = norm({'e': [np.asarray(x).tolist() for x in res['effective_error'][:k]],
-                        's': [bool(x) for x in res['success'][:k]],
-                        'c': [bool(x) for x in res['codespace'][:k]]})
-            want = {'e': mr['effective_error'], 's': mr['success'], 'c': mr['codespace']}
-            if got != want:
+            saved = norm(result_lists(m['results']))
+            k = m['results']['n_runs']
+            if any(mine_lists.get(name, [])[:k] != vals[:k] for name, vals in saved.items()):
                 fail('last_save_kept_as_prefix',
                      f'simulation {si}: the {k} trials of the last completed save are not '
                      f'the first {k} trials of the final result (final has {n})')
@@ -215,7 +225,7 @@ def check_final(scen, batch, target, fail, foreign_marks=(), model=None):
             if len(mine) != 1:
                 fail('file_has_one_record_per_simulation', f'simulation {si}: {len(mine)} records')
             elif mine[0]['results']['n_runs'] != n or \
-                    mine[0]['results']['success'] != [bool(x) for x in res['success']]:
+                    norm(result_lists(mine[0]['results'])) != mine_lists:
                 fail('file_equals_memory', f'simulation {si}')
         if foreign_marks and not all(bool(x) for x in res['codespace']):
             fail('foreign_results_adopted', f'simulation {si} carries marked foreign results')
@@ -420,7 +430,8 @@ def eval_case(case):
         f['detail'] = f"[{case['fmt']}] " + f['detail']
     return {'fails': fail.items, 'nontrivial': nt, 'nontrivial_keys': nt_keys,
             'labels': [case['kind'], case['fmt']] + (
-                ['decoder:' + case['spec0']['ranges']['decoder']['name']]
+                ['decoder:' + case['spec0']['ranges']['decoder']['name'],
+                 'method:' + (case['spec0']['ranges'].get('method') or {}).get('name', 'direct')]
                 if case['kind'] == 'history' else []), 'evals': max(1, evals)}
 
 
@@ -476,6 +487,11 @@ def histories(draw):
         if dec_name != 'MatchingDecoder':
             sizes, rates = sizes[:1], rates[:2]
     spec0 = make_spec(sizes, [(1 / 3, 1 / 3, 1 / 3)], rates, decoder=dec_name, dparams=dparams)
+    splitting = variants is None and draw(st.integers(0, 4)) == 0
+    if splitting:
+        # the other documented method: one Monte-Carlo chain per error rate
+        spec0['ranges']['method'] = {'name': 'splitting',
+                                     'parameters': {'n_init_runs': draw(st.integers(1, 5))}}
     runs = []
     target = 0
     for _ in range(draw(st.integers(1, 5))):
@@ -494,6 +510,8 @@ def histories(draw):
                      ['rate', 0.1 + 0.2], ['rate', 0.3]]
             if variants is not None:
                 grows = grows[:2] + [['dparam', v] for v in variants[1:]] * 2
+            if splitting:
+                grows = grows[:2]       # (the rates of a chain family are fixed)
             run['grow'] = draw(st.sampled_from(grows))
         runs.append(run)
     runs.append({'target': target + draw(st.integers(0, 2)), 'sf': draw(st.integers(1, 3))})
@@ -501,7 +519,7 @@ def histories(draw):
             'runs': runs, 'seed': draw(st.integers(0, 10**6))}
     used_sets = [] if dparams is None else (dparams if isinstance(dparams, list) else [dparams])
     used_sets = used_sets + [r_['grow'][1] for r_ in runs if r_.get('grow', [None])[0] == 'dparam']
-    if dec_name == 'MemoryBeliefPropagationDecoder' or \
+    if splitting or dec_name == 'MemoryBeliefPropagationDecoder' or \
             any(v.get('error_type') in ('X', 'Z') for v in used_sets):
         # (an incomplete decoder - MBP, one-sector matching: genuine trials may
         # leave the code space, so the all-fail marking of foreign records
